@@ -695,13 +695,63 @@ theorem filterLoop_spec {P : Touch → Prop} {v : View} (keep : List Bool) (detA
       · rw [v1]; exact m
     · omega
 
+theorem filterLoop_views {v : View} (keep : List Bool) (detAt : Nat) (det : List Nat) :
+    ∀ (n : Nat) (s : State) (k : Nat) (acc : List (List UInt8)), (filterLoop s v keep detAt det k n acc).1.views = s.views := by
+  intro n
+  induction n with
+  | zero => intro s k acc; rfl
+  | succ n ih =>
+    intro s k acc
+    unfold filterLoop; dsimp only
+    rw [ih]
+    have hr : (filterRead s v k).2.views = s.views := by
+      unfold filterRead
+      split
+      · unfold State.readElem
+        have : ∀ (m : Nat) (t : State) (lo : Nat), (t.readRange v.buf lo m).2.views = t.views := by
+          intro m
+          induction m with
+          | zero => intro t lo; rfl
+          | succ m ihm => intro t lo; simp only [State.readRange]; rw [ihm]; rfl
+        exact this _ _ _
+      · rfl
+    split
+    · rw [applyDet_views, hr]
+    · exact hr
+
 theorem opFilter_spec {P : Touch → Prop} {s : State} {vi : Nat} {v : View} (keep : List Bool) (detAt : Nat) (det : List Nat)
-    (hv : s.views[vi]? = some v) (c : Ctx P s) (hP : PRange P v.buf v.lo v.hi) :
-    Ctx P (opFilter s vi keep detAt det).2 := by
+    (sp : Species) (hv : s.views[vi]? = some v) (c : Ctx P s) (hP : PRange P v.buf v.lo v.hi)
+    (hPd : ∀ di sdet dst, sp = some (di, sdet) → s.views[di]? = some dst → PRange P dst.buf dst.lo dst.hi) :
+    Ctx P (opFilter s vi keep detAt det sp).2 := by
   unfold opFilter; rw [hv]; dsimp only
   split
   · exact c
-  · exact ctx_pushFresh (filterLoop_spec keep detAt det hP v.length s 0 [] c (mem_of_getElem? hv) (by omega)) _ _
+  · split
+    · exact c
+    · have cl := filterLoop_spec keep detAt det hP v.length s 0 [] c (mem_of_getElem? hv) (by omega)
+      have vl := filterLoop_views (v := v) keep detAt det v.length s 0 []
+      split
+      · exact ctx_pushFresh cl _ _
+      · rename_i di sdet _
+        split
+        · exact c
+        · rename_i dst hdst
+          have hPd' := hPd di sdet dst rfl hdst
+          have c2 := cl.applyDet sdet
+          have md : dst ∈ ((filterLoop s v keep detAt det 0 v.length []).1.applyDet sdet).views := by
+            rw [applyDet_views, vl]; exact mem_of_getElem? hdst
+          split
+          · exact c2
+          · rename_i had
+            split
+            · exact c2
+            · rename_i hlen
+              split
+              · exact c2
+              · rename_i ys hys
+                have hl := convElems_length _ _ hys
+                obtain ⟨w1, w2⟩ := writeElems_spec hPd' ys _ 0 c2.log (c2.inv.rangeOK md (not_not_attached had)) (by omega)
+                exact ctx_pushAlias ⟨c2.inv.of_sameShape w2, w1⟩ (by rw [w2.views]; exact md)
 
 /-- reading the source element of `map` when (and only when) its buffer is attached -/
 theorem mapRead_spec {P : Touch → Prop} {s : State} {v : View} {k : Nat} (c : Ctx P s) (m : v ∈ s.views)
@@ -859,28 +909,60 @@ theorem opOf_spec {P : Touch → Prop} {s : State} (ct : Ctor) (vals : List VArg
             exact ctx_pushAlias x (by rw [y]; exact md)
           · exact x
 
-theorem opABSlice_spec {P : Touch → Prop} {s : State} (b : Nat) (st fi : Option IArg) (c : Ctx P s)
-    (hP : ∀ hi, PRange P b 0 hi) : Ctx P (opABSlice s b st fi).2 := by
+theorem attached_of_blen_pos {s : State} {b : Nat} (h : 0 < s.blen b) : s.attached b = true := by
+  unfold State.blen at h
+  unfold State.attached
+  cases hd : s.data? b with
+  | none => simp [hd] at h
+  | some d => rfl
+
+theorem opABSlice_spec {P : Touch → Prop} {s : State} (b : Nat) (st fi : Option IArg) (sp : BufSpecies) (c : Ctx P s)
+    (hP : ∀ hi, PRange P b 0 hi) (hPn : ∀ nb sdet hi, sp = some (nb, sdet) → PRange P nb 0 hi) :
+    Ctx P (opABSlice s b st fi sp).2 := by
   unfold opABSlice; dsimp only
   have hl : (0 : Int) ≤ (s.blen b : Int) := Int.natCast_nonneg _
   have c2 := (c.applyDet (oDet st)).applyDet (oDet fi)
+  have hcnt := slice_count (s.blen b) (relToIdx (oVal st 0) (s.blen b)) (relToIdx (oVal fi (s.blen b)) (s.blen b))
+    ⟨relToIdx_nonneg _ _ hl, relToIdx_le _ _ hl⟩ ⟨relToIdx_nonneg _ _ hl, relToIdx_le _ _ hl⟩
+  simp only [Int.toNat_natCast] at hcnt
   split
   · exact c
   · split
     · split
+      · split
+        · exact c2
+        · rename_i ha
+          have ha' := not_not_attached ha
+          have hlen : s.blen b ≤ ((s.applyDet (oDet st)).applyDet (oDet fi)).blen b :=
+            Nat.le_trans (blen_applyDet_of_attached _ _ _ (attached_of_applyDet _ _ _ ha')) (blen_applyDet_of_attached _ _ _ ha')
+          obtain ⟨r1, r2, _⟩ := readRange_spec (hP (s.blen b)) _ _ (relToIdx (oVal st 0) (s.blen b)).toNat c2.log
+            ⟨ha', hlen⟩ (Nat.zero_le _) hcnt
+          exact ⟨inv_pushBuf (c2.inv.of_sameShape r2) _, r1⟩
+      · exact ⟨inv_pushBuf c2.inv _, c2.log⟩
+    · rename_i nb sdet
+      have c3 := c2.applyDet sdet
+      split
       · exact c2
-      · rename_i ha
-        have ha' := not_not_attached ha
-        -- an attached buffer keeps its length: blen after the detaches = blen before
-        have hcnt := slice_count (s.blen b) (relToIdx (oVal st 0) (s.blen b)) (relToIdx (oVal fi (s.blen b)) (s.blen b))
-          ⟨relToIdx_nonneg _ _ hl, relToIdx_le _ _ hl⟩ ⟨relToIdx_nonneg _ _ hl, relToIdx_le _ _ hl⟩
-        simp only [Int.toNat_natCast] at hcnt
-        have hlen : s.blen b ≤ ((s.applyDet (oDet st)).applyDet (oDet fi)).blen b :=
-          Nat.le_trans (blen_applyDet_of_attached _ _ _ (attached_of_applyDet _ _ _ ha')) (blen_applyDet_of_attached _ _ _ ha')
-        obtain ⟨r1, r2, _⟩ := readRange_spec (hP (s.blen b)) _ _ (relToIdx (oVal st 0) (s.blen b)).toNat c2.log
-          ⟨ha', hlen⟩ (Nat.zero_le _) hcnt
-        exact ⟨inv_pushBuf (c2.inv.of_sameShape r2) _, r1⟩
-    · exact ⟨inv_pushBuf c2.inv _, c2.log⟩
+      · split
+        · split
+          · exact c3
+          · rename_i ha
+            split
+            · exact c3
+            · split
+              · exact c3
+              · rename_i hbl
+                have ha' := not_not_attached ha
+                have hlen : s.blen b ≤ (((s.applyDet (oDet st)).applyDet (oDet fi)).applyDet sdet).blen b :=
+                  Nat.le_trans (Nat.le_trans
+                    (blen_applyDet_of_attached _ _ _ (attached_of_applyDet _ _ _ (attached_of_applyDet _ _ _ ha')))
+                    (blen_applyDet_of_attached _ _ _ (attached_of_applyDet _ _ _ ha')))
+                    (blen_applyDet_of_attached _ _ _ ha')
+                have hnb : (((s.applyDet (oDet st)).applyDet (oDet fi)).applyDet sdet).attached nb = true :=
+                  attached_of_blen_pos (by omega)
+                exact move_ctx c3 ⟨ha', hlen⟩ (hP (s.blen b)) (Nat.zero_le _) hcnt
+                  ⟨hnb, Nat.le_refl _⟩ (hPn nb sdet _ rfl) (Nat.zero_le _) (by omega)
+        · exact c3
 
 /-! ## reading methods -/
 
@@ -1050,5 +1132,40 @@ theorem opJoin_spec {P : Touch → Prop} {s : State} {vi : Nat} {v : View} (det 
   split
   · exact c
   · exact joinLoop_spec hP v.length _ 0 [] (c.applyDet det) (mem_applyDet (mem_of_getElem? hv) det) (by omega)
+
+theorem iterLoop_spec {P : Touch → Prop} {v : View} (detAt : Nat) (det : List Nat) (hP : PRange P v.buf v.lo v.hi) :
+    ∀ (n : Nat) (s : State) (i : Nat) (acc : List (Option Num)), Ctx P s → v ∈ s.views → i + n ≤ v.length + 1 →
+      Ctx P (iterLoop s v detAt det i n acc).2 := by
+  intro n
+  induction n with
+  | zero => intro s i acc c _ _; exact c
+  | succ n ih =>
+    intro s i acc c m h
+    unfold iterLoop; dsimp only
+    split
+    · exact c
+    · rename_i ha
+      split
+      · exact c
+      · rename_i hn
+        have hn' : n ≠ 0 := by simpa using hn
+        obtain ⟨r1, r2⟩ := readElem_spec c.log (c.inv.rangeOK m (not_not_attached ha)) hP (by omega : i < v.length)
+        have c1 : Ctx P (s.readElem v i).2 := ⟨c.inv.of_sameShape r2, r1⟩
+        apply ih
+        · split
+          · exact c1.applyDet det
+          · exact c1
+        · split
+          · rw [applyDet_views, r2.views]; exact m
+          · rw [r2.views]; exact m
+        · omega
+
+theorem opIterate_spec {P : Touch → Prop} {s : State} {vi : Nat} {v : View} (detAt : Nat) (det : List Nat)
+    (hv : s.views[vi]? = some v) (c : Ctx P s) (hP : PRange P v.buf v.lo v.hi) :
+    Ctx P (opIterate s vi detAt det).2 := by
+  unfold opIterate; rw [hv]; dsimp only
+  split
+  · exact c
+  · exact iterLoop_spec detAt det hP _ s 0 [] c (mem_of_getElem? hv) (by omega)
 
 end GojaModel.C17
